@@ -36,7 +36,7 @@ PROPS = {
         "assumptions": ["fault model of the reader: the stream fails (error or clean truncation) at a byte offset; fh.Close() errors inside Unpack cannot be injected through an io.Reader and are outside the property's fault model"],
         "explanation": "Unpack part: C12_unpack_ok_complete (a run that reports success did everything the fault-free run does, for every fault position), C12_unpack_header_fault_reported, C12_unpack_body_fault_reported, C12_fault_never_illegal / C12_illegal_has_culprit (policy rejections are distinguishable and have a culprit entry). Tie: 'unpack-faults' lane cuts the tar stream at every position (mapped to the model's fault by decoding with archive/tar) and compares full filesystem dumps; gzip-level read errors/truncations are judged by the oracle (success => fully materialised).",
     },
-    "_C02": {
+    "C02": {
         "lanes": [
             {"lane": "pack", "quick": 2500, "thorough": 60000},
             {"lane": "unpack", "quick": 1200, "thorough": 20000},
